@@ -83,9 +83,11 @@ class ConvND(Operation):
 
         # (G0, ...) is the tuple of grid-positions for placing each window (not including stride)
         # (N, C, X0, ...) -> (G0, ..., N, C, W0, ...)
+        # (windows spanning the full extent of the dilated filter are taken, then
+        # sub-sampled; `sliding_window_view` itself only admits `w * d <= x`)
         windowed_data = sliding_window_view(
-            x, window_shape=w_shape, step=self.stride, dilation=self.dilation
-        )
+            x, window_shape=(w_shape - 1) * self.dilation + 1, step=self.stride
+        )[(..., *(slice(None, None, d) for d in self.dilation))]
 
         w_conv_channels = list(range(1, num_conv_channels + 2))  # C, W0, ...
         window_conv_channels = [
@@ -146,8 +148,10 @@ class ConvND(Operation):
             # (G0, ...) is the tuple of grid-indices for placing each window (not including stride)
             # (N, C, X0, ...) -> (G0, ..., N, C, W0, ...)
             windowed_data = sliding_window_view(
-                x, window_shape=w.shape[2:], step=self.stride, dilation=self.dilation
-            )
+                x,
+                window_shape=(np.array(w.shape[2:]) - 1) * self.dilation + 1,
+                step=self.stride,
+            )[(..., *(slice(None, None, d) for d in self.dilation))]
 
             # (N, F, G0, ...) -tdot- (G0, ..., N, C, W0, ...) --> (F, C, W0, ...)
             grad_axes = list(range(2, num_conv_channels + 2)) + [0]  # (G0, ..., N)
